@@ -26,23 +26,35 @@ Oracle (no model involved), per call made under a foreign non-admin context:
   - every created row carries the caller's project, whatever project_id the values contain; an update never
     moves a row to a project other than the caller's.
 
-Known defects of the unchanged tree reported by the oracle (signatures):
-  F2 public-write-by-other:<fn>   update/delete of another project's PUBLIC row succeeds (no check_db_obj_access)
-     shared-write-by-member:<fn>  same through an accepted share (workbooks)
-  F7 reshare-by-member            an accepted member offers the owner's private workflow to a third project
-  F9 owner-not-forced:<fn>        EventTrigger is defined after mb.register_secure_model_hooks(): a supplied
-                                  project_id is stored as given
+Known defects of the unchanged tree reported by the oracle (signatures; <fn> = the function where the guard is missing,
+create_or_update_X counts as update_X, every delete_Xs as _delete_all):
+  F2 foreign-write:<fn>      update/delete of another project's PUBLIC row (or of a workbook shared through an accepted
+                             membership) succeeds at db-api and REST level: no check_db_obj_access / own-rows filter
+  F7 reshare-by-member       an accepted member offers the owner's private workflow to a third project (REST)
+  F9 owner-not-forced:<fn>   EventTrigger is defined after mb.register_secure_model_hooks(): a supplied project_id is
+                             stored as given (db-api level only; the REST resource makes project_id read-only)
 
 Self-test (scratch worktree, `VERIF_REPO=/tmp/wt_C15 ./check C15`), each gives NEW VIOLATION signatures:
-  M1 api.py update_workflow_definition: drop `m_dbutils.check_db_obj_access(wf_def)`
-       -> public-write-by-other:update_workflow_definition (+ create_or_update_..., shared-write-by-member)
-  M2 api.py _get_accepted_resources: drop `models.ResourceMember.status == 'accepted'`
-       -> private-read:get_workflow_definition ... (pending/rejected share grants access); C15_helpers_as_modelled breaks
-  M3 api.py _get_db_object_by_id: `query = b.model_query(...)` unconditionally (insecure by id)
-       -> private-read:get_workflow_execution / get_task_execution ...; translator: helper mode changes, C15_table_secure breaks
-  M4 model_base.py _set_project_id: `return value` -> owner-not-forced:create_* ; C15_helpers_as_modelled breaks
-  M5 api.py _secure_query: drop `model.scope == 'public'` from the criterion -> public-unreadable:get_*
-  M6 api.py delete_cron_trigger: drop the check_db_obj_access line -> public-write-by-other:delete_cron_trigger
+  M1  api.py update_workflow_definition: drop `m_dbutils.check_db_obj_access(wf_def)` -> foreign-write:update_workflow_definition;
+      C15_anchored_guards breaks
+  M2  api.py _get_accepted_resources: drop `status == 'accepted'` -> member-pending-grants:get_workflow_definition ... (27 signatures);
+      C15_helpers_as_modelled breaks, db_matrix disagrees
+  M3  api.py _get_db_object_by_id: `query = b.model_query(...)` unconditionally -> private-read / member-*-grants:get_workflow_execution,
+      get_task_execution ..., expr-private-read:execution/task/global; C15_table_secure breaks
+  M4  model_base.py _set_project_id: `return value or security.get_project_id()` -> owner-not-forced:create_* (20 signatures);
+      C15_helpers_as_modelled breaks
+  M5  api.py _secure_query: drop `model.scope == 'public'` -> public-unreadable:get_* (36 signatures); helpers theorem breaks
+  M6  api.py delete_cron_trigger: drop the check_db_obj_access line -> foreign-write:delete_cron_trigger; C15_anchored_guards breaks
+  M7  api.py _get_collection: `... if insecure or filters else _secure_query(...)` -> extractor refuses (fail closed), oracle-only run:
+      private-read / member-*-grants:get_*s, expr-private-read:executions/tasks/task
+  M8  api.py update_resource_member: drop the `member_id != caller` guard, match owner criterion too
+      -> member-status-by-non-member:update, rest-member-nonaccepted-grants; members suite disagrees
+  M9  utils/rest_utils.py get_all: `auth_ctx.has_ctx()` instead of `auth_ctx.ctx().is_admin` -> rest-private-read:GET /v2/<lists> (14)
+  M10 expressions/std_functions.py executions_: `get_workflow_executions(insecure=True, ...)` -> expr-private-read:executions
+  M11 db/utils.py check_db_obj_access: skip the owner test for public rows -> foreign-write:update_workflow_definition,
+      delete_workflow_definition, update_workflow_execution, delete_cron_trigger; helpers theorem breaks
+  M12 api/controllers/v2/event_trigger.py delete: fetch with insecure=True -> private-write:delete_event_trigger (REST)
+All twelve were caught with a concrete replayable input (none missed).
 """
 import datetime
 import inspect
@@ -982,6 +994,15 @@ def oracle_history_step(ctx, entry, project, admin, kw, before, outcome, after):
                      % (fn, project, key[0], r['project_id']), {'history_step': True, 'fn': fn})
 
 
+def is_writer(e):
+    return e['kind'] in ('update', 'delete_obj', 'create_or_update', 'delete_query', 'delete_all')
+
+
+def guarded(e):
+    """check_db_obj_access before the mutation, or a query over the caller's own rows (Proofs: shape_guarded)"""
+    return bool(e.get('chk')) or e.get('q') in ('QOwn', 'QOwnAdmin')
+
+
 def root_fn(entry):
     """the function where the missing guard would go"""
     if entry['kind'] == 'delete_all':
@@ -1268,9 +1289,8 @@ def run(ctx):
     ctx.cov['table'] = {
         'functions': len([e for e in table['entries'] if e['kind'] != 'internal']),
         'internal': sorted(e['name'] for e in table['entries'] if e['kind'] == 'internal'),
-        'unguarded_writes': sorted(e['name'] for e in table['entries']
-                                   if e['kind'] in ('delete_query', 'delete_all') or (e['kind'] in ('update', 'delete_obj', 'create_or_update') and not e['chk'])),
-        'guarded_writes': sorted(e['name'] for e in table['entries'] if e['kind'] in ('update', 'delete_obj', 'create_or_update') and e['chk']),
+        'unguarded_writes': sorted(e['name'] for e in table['entries'] if is_writer(e) and not guarded(e)),
+        'guarded_writes': sorted(e['name'] for e in table['entries'] if is_writer(e) and guarded(e)),
         'unhooked_models': sorted(set(table['secure_models']) - set(table['hooked_models'])),
         'skipped': {k: len(v) for k, v in table['skipped'].items()},
     }
